@@ -149,7 +149,15 @@ fn map_case(ctx: &mut Ctx, rng: &mut Rng) {
         "weights": w.iter().map(|(l, h)| json!([l.show(), h.show()])).collect::<Vec<_>>(), "optimum": best.show()});
     let bcfg = builder_cfg(&cfg, rng);
     let nb = bcfg.n0;
-    let qlbl: Vec<VarLabel> = q.iter().map(|v| crate::gen::lab(*v)).collect();
+    let mut qlbl: Vec<VarLabel> = q.iter().map(|v| crate::gen::lab(*v)).collect();
+    // the query variables are a set; now and then the list handed to the library names one of
+    // them twice (unusual but legal: the maximisation is over the same assignments)
+    if !qlbl.is_empty() && rng.chance(1, 8) {
+        let dup = qlbl[rng.below(qlbl.len())];
+        let at = rng.below(qlbl.len() + 1);
+        qlbl.insert(at, dup);
+        ctx.count("query_lists_naming_a_variable_twice", 1);
+    }
     let params = params(&crate::gen::spread_weights(&w, (OReal(Dy::new(1, 1)), OReal(Dy::new(1, 1)))));
     ctx.seen("query_sizes", &format!("{}of{}", k, n));
     let ignored = q.iter().any(|v| !t.depends_on(*v));
